@@ -47,7 +47,7 @@ CLAIMED = {
             "zero-padded partial chunk and the 1/num_shares constants, the latter for every share count 1..1000 over GF(61441)); decide() equals the reference predicate for every verifier "
             "message; declared proof/verifier/randomness lengths equal the structural formulas for ranges of parameters; wrong-length arguments to prove/query/decide are refused; "
             "query refuses exactly the roots of unity of the wire-polynomial domain independently of the compression coefficients; Count: prove -> query -> decide accepts for all randomness.",
-            "Share-linearity of query and soundness as a probability are outside; circuits are exercised at the smallest parameters that reach every code path; GF(17).", "DESIGN.md §4 C05", False),
+            "Share-linearity of query and soundness as a probability are outside; circuits are exercised at the smallest parameters that reach every code path; GF(17).", "DESIGN.md §4 C05", True),
     "C07": ("bounded symbolic model checking (Kani/CBMC) of decoders/encoders on fully symbolic byte strings and values (decode contract + encode contract per message type)",
             "For each covered message type and small concrete instance, the decoder is run on *every* byte string of the honest length (and of the honest "
             "length +-1): it accepts exactly the strings whose elements are canonical, its fields equal the primitive decoders applied to the corresponding "
@@ -89,7 +89,7 @@ CLAIMED = {
             "and keeps the stream position across into_new_field; generate_random reads one chunk at a time and rejects exactly the chunks >= p; the accept set of try_from_random is decided at "
             "full width for the three shipped integer fields and Field255.",
             "Chunking-independence and derived seeds of the hash-based XOFs are NOT covered (symbolic hash input); at most two consecutive rejections; GF(17)/GF(61441) for the Prng harnesses.",
-            "DESIGN.md §4 C11", False),
+            "DESIGN.md §4 C11", True),
     "C12": ("bounded symbolic model checking (Kani/CBMC) of the generic ping-pong routines instantiated with an order-sensitive instrumented VDAF",
             "One step of leader_continued/helper_continued from an arbitrary host state (rounds 1..3, any round, both roles) under an arbitrary inbound message "
             "(every kind, every payload byte, wrong payload lengths) is compared with the draft's ping_pong_continued written independently: Initialize refused, "
@@ -103,7 +103,7 @@ CLAIMED = {
             "associative, zero identity, accumulate = merge, element-wise sums; refusal on length mismatch leaves the accumulator bit-identical; the default "
             "Aggregator::aggregate for Prio3Count and Prio2 equals any partition into batches merged in any order and checks every share including the first; "
             "Poplar1FieldVec refuses Inner/Leaf and length mismatches unchanged.",
-            "Vector lengths <= 3, three shares; Poplar1 leaf (Field255) sums are outside; unshard's decode step is C01's subject.", "DESIGN.md §4 C13", False),
+            "Vector lengths <= 3, three shares; Poplar1 leaf (Field255) sums are outside; unshard's decode step is C01's subject.", "DESIGN.md §4 C13", True),
     "C19": ("bounded symbolic model checking (Kani/CBMC) of Prio2's parameter bounds, proof packing and aggregator-side formulas over GF(17)",
             "Narrow slice: Prio2::new is total for every usize; proof_length/unpack_proof accept exactly dim + 3 + nextpow2(dim+1) elements and tile the slice in wire order (dim 0..6, every length 0..20); "
             "generate_verification_message equals interpolate-and-evaluate references for dimension 1 (every proof share, query point and role; dimension 2 in the thorough tier), including the case where "
